@@ -177,10 +177,19 @@ pub fn exec_mat(ops: Vec<Op>, seed: u64) -> Case {
         };
         let mut nmatches = 0usize;
         // single patterns derived from tracked terms
-        for _ in 0..4 {
-            let t = terms[rng.below(terms.len())].clone();
-            let mut vars = Vec::new();
-            let p0 = abstract_term(&t, &mut rng, &mut vars, 0, &mut Vec::new());
+        for round in 0..6 {
+            // rounds 4 and 5: the non-linear patterns `(k ?v0 ?v0)` / `(add ?v0 ?v0)` — a repeated variable has to be bound to
+            // the same invocation up to the class symmetries, not merely to the same class with the same slot set
+            let (p0, mut vars): (APat, Vec<(String, ATerm)>) = if round >= 4 {
+                let op = if round == 4 { 14 } else { 4 };
+                (APat::Node(op, vec![CField::App, CField::App], vec![APat::PVar("v0".into()), APat::PVar("v0".into())]), vec![("v0".to_string(), terms[0].clone())])
+            } else {
+                let t = terms[rng.below(terms.len())].clone();
+                let mut vars = Vec::new();
+                let p0 = abstract_term(&t, &mut rng, &mut vars, 0, &mut Vec::new());
+                (p0, vars)
+            };
+            let _ = &mut vars;
             let mut sl = Vec::new();
             pat_slots(&p0, &mut sl);
             let mut img: Vec<u32> = PSLOTS.to_vec();
@@ -341,7 +350,34 @@ pub fn run(ctx: &mut Ctx) {
             o.push(Op::Query);
             ops = o;
         }
-        if rng.chance(1, 2) {
+        if rng.chance(1, 8) {
+            // a class whose symmetry group is a proper subgroup of the symmetric group on its orbit (rotations of three slots,
+            // or a double transposition of four) below binary nodes whose two children are related by a permutation inside /
+            // outside that group: `(k ?a ?a)` must match the former and not the latter
+            let leaf = |v: usize, sl: &[u32]| ATerm { v, fields: sl.iter().map(|s| CField::Slot(*s)).collect(), children: vec![] };
+            let bin = |v: usize, a: ATerm, b: ATerm| ATerm { v, fields: vec![CField::App, CField::App], children: vec![a, b] };
+            let mut o: Vec<Op> = Vec::new();
+            let op = if rng.chance(2, 3) { 14 } else { 4 };
+            if rng.chance(2, 3) {
+                o.push(Op::Add(leaf(8, &[4, 8, 12])));
+                o.push(Op::Add(leaf(8, &[8, 12, 4])));
+                o.push(Op::Union(0, 1));
+                let others: [[u32; 3]; 5] = [[8, 4, 12], [4, 12, 8], [12, 8, 4], [12, 4, 8], [8, 12, 4]];
+                for _ in 0..rng.range(1, 3) {
+                    o.push(Op::Add(bin(op, leaf(8, &[4, 8, 12]), leaf(8, &others[rng.below(5)]))));
+                }
+            } else {
+                o.push(Op::Add(leaf(9, &[4, 8, 12, 16])));
+                o.push(Op::Add(leaf(9, &[8, 4, 16, 12])));
+                o.push(Op::Union(0, 1));
+                let others: [[u32; 4]; 4] = [[8, 4, 12, 16], [4, 8, 16, 12], [8, 4, 16, 12], [12, 16, 4, 8]];
+                for _ in 0..rng.range(1, 3) {
+                    o.push(Op::Add(bin(op, leaf(9, &[4, 8, 12, 16]), leaf(9, &others[rng.below(4)]))));
+                }
+            }
+            o.push(Op::Query);
+            ops = o;
+        } else if rng.chance(1, 2) {
             // binary nodes over variables (equal and different arguments), for the long multi-patterns
             let var = |c: u32| ATerm { v: 2, fields: vec![CField::Slot(c)], children: vec![] };
             let bin = |v: usize, a: ATerm, b: ATerm| ATerm { v, fields: vec![CField::App, CField::App], children: vec![a, b] };
